@@ -74,6 +74,7 @@ type Step struct {
 	At       int    `json:"at"`       // for chunking=split: first chunk size
 	Chunks   []int  `json:"chunks"`   // explicit chunk sizes
 	Cut      int    `json:"cut"`      // >0: deliver only the first Cut bytes of the encoded pipeline
+	CutAll   bool   `json:"cutall"`   // expand into one scenario per cut offset 1..total
 	WFailAt  int    `json:"wfailat"`  // op=wfail: writes fail once this many bytes were written
 }
 
@@ -86,6 +87,7 @@ type Scenario struct {
 	NConns      int    `json:"nconns"`
 	Steps       []Step `json:"steps"`
 	CustomExec  bool   `json:"customexec"` // register application executors MYCMD / mycmd2
+	Concurrent  bool   `json:"concurrent"` // every connection is driven by its own goroutine (true concurrency)
 }
 
 func goid() int64 {
@@ -287,28 +289,31 @@ func (rn *runner) run(s Scenario) bool {
 		"tracer": s.Tracer, "nconns": n, "authdouble": s.AuthDouble, "customexec": s.CustomExec})
 	started := make([]bool, n)
 	ok := true
-	start := func(c int) {
-		if !started[c] {
-			started[c] = true
-			rn.rec.Emit(Ev{"ev": "open", "c": c})
-			rn.serve(server, conns[c])
-			if !conns[c].sc.WaitQuiet(rn.timeout) {
-				rn.stall(conns[c])
-				ok = false
-			}
-		}
+	var okmu sync.Mutex
+	fail := func() {
+		okmu.Lock()
+		ok = false
+		okmu.Unlock()
 	}
-	for _, st := range s.Steps {
+	doStep := func(st Step) {
 		if st.C < 0 || st.C >= n {
-			continue
+			return
 		}
 		cr := conns[st.C]
 		if cr.stalled {
-			continue
+			return
 		}
-		start(st.C)
+		if !started[st.C] {
+			started[st.C] = true
+			rn.rec.Emit(Ev{"ev": "open", "c": st.C})
+			rn.serve(server, conns[st.C])
+			if !conns[st.C].sc.WaitQuiet(rn.timeout) {
+				rn.stall(conns[st.C])
+				fail()
+			}
+		}
 		if cr.stalled {
-			continue
+			return
 		}
 		switch st.Op {
 		case "send":
@@ -341,7 +346,7 @@ func (rn *runner) run(s Scenario) bool {
 				off += k
 				if !cr.sc.WaitQuiet(rn.timeout) {
 					rn.stall(cr)
-					ok = false
+					fail()
 					break
 				}
 			}
@@ -349,19 +354,38 @@ func (rn *runner) run(s Scenario) bool {
 			cr.sc.HalfClose()
 			if !cr.sc.WaitQuiet(rn.timeout) {
 				rn.stall(cr)
-				ok = false
+				fail()
 			}
 		case "fullclose":
 			cr.sc.PeerClose()
 			if !cr.sc.WaitQuiet(rn.timeout) {
 				rn.stall(cr)
-				ok = false
+				fail()
 			}
 		case "wfail":
 			cr.sc.mu.Lock()
 			cr.sc.wfailAt = st.WFailAt
 			cr.sc.mu.Unlock()
 			rn.rec.Emit(Ev{"ev": "wfail", "c": st.C, "at": st.WFailAt})
+		}
+	}
+	if s.Concurrent {
+		var wg sync.WaitGroup
+		for c := 0; c < n; c++ {
+			wg.Add(1)
+			go func(c int) {
+				defer wg.Done()
+				for _, st := range s.Steps {
+					if st.C == c {
+						doStep(st)
+					}
+				}
+			}(c)
+		}
+		wg.Wait()
+	} else {
+		for _, st := range s.Steps {
+			doStep(st)
 		}
 	}
 	// wind down: end every stream that is still open, wait for the loops to return
@@ -471,6 +495,21 @@ func cmdConn(args []string) {
 // expand turns chunking "allsplits" (single send step) into one scenario per 2-way split point.
 func expand(s Scenario) []Scenario {
 	for si, st := range s.Steps {
+		if st.Op == "send" && st.CutAll {
+			n := 0
+			for _, r := range st.Reqs {
+				n += len(r.encode())
+			}
+			var out []Scenario
+			for cut := 1; cut <= n; cut++ {
+				c := s
+				c.Steps = append([]Step{}, s.Steps...)
+				c.Steps[si].CutAll = false
+				c.Steps[si].Cut = cut
+				out = append(out, c)
+			}
+			return out
+		}
 		if st.Op == "send" && st.Chunking == "allsplits" {
 			n := 0
 			for _, r := range st.Reqs {
